@@ -452,7 +452,15 @@ SPAWNERS = {"subprocess.run", "subprocess.call", "subprocess.check_call", "subpr
 def _command_head(ctx, fn: FuncInfo, call: ast.Call) -> list[str]:
     """Leading constant words of the command a spawn call runs (list literal, possibly built up in a local)."""
     arg = call.args[0] if call.args else next((k.value for k in call.keywords if k.arg == "args"), None)
-    arg = ctx.resolver(fn).expand(arg) if isinstance(arg, ast.Name) else arg
+    # the list the command starts as: follow plain assignments of the name (later `+=` / extend only append to it)
+    for _ in range(4):
+        if not isinstance(arg, ast.Name):
+            break
+        plain = [a.value for a in walk_no_nested(fn.node) if isinstance(a, ast.Assign) and any(isinstance(t, ast.Name) and t.id == arg.id for t in a.targets)]
+        plain += [a.value for a in walk_no_nested(fn.node) if isinstance(a, ast.AnnAssign) and a.value is not None and isinstance(a.target, ast.Name) and a.target.id == arg.id]
+        if len(plain) != 1:
+            break
+        arg = plain[0]
     words = []
     if isinstance(arg, (ast.List, ast.Tuple)):
         for e in arg.elts:
